@@ -514,3 +514,167 @@ Definition opt_eqb (a b : option hentry) : bool :=
 Definition st_equiv_b (a b : st) : bool :=
   forallb (fun p => opt_eqb (nfind a p) (nfind b p)) (map fst (names a) ++ map fst (names b)) &&
   forallb (fun k => opt_eqb (kv_get a k) (kv_get b k)) (map fst (kvs a) ++ map fst (kvs b)).
+
+(* ====================================================================================
+   C21: the specification of hard links, as decidable predicates on a state (the raw
+   per-name blobs + the KV records) and on what FindEntry shows ([vw]).
+   ==================================================================================== *)
+
+(* the names whose stored blob carries link id X *)
+Definition carries (X : N) (kv : path * hentry) : bool := h_hl (snd kv) =? X.
+Definition count_names (s : st) (X : N) : nat := List.length (filter (carries X) (names s)).
+
+(* the link counter equals the number of live names; a record exists exactly as long as a name
+   carries its id; the record's blob is filed under its own id *)
+Definition counters_ok (s : st) : bool :=
+  forallb (fun kb => Z.eqb (h_cnt (snd kb)) (Z.of_nat (count_names s (fst kb))) &&
+                     Nat.ltb 0 (count_names s (fst kb)) && (h_hl (snd kb) =? fst kb)) (kvs s) &&
+  forallb (fun kv => (h_hl (snd kv) =? 0) ||
+                     match kv_get s (h_hl (snd kv)) with Some _ => true | None => false end) (names s).
+
+Definition linked (a b : hentry) : bool := negb (h_hl a =? 0) && (h_hl a =? h_hl b).
+
+(* all names with the same link id show the same content and attributes *)
+Definition shared_view_ok (s : st) (vw : path -> option hentry) : bool :=
+  forallb (fun kv1 => forallb (fun kv2 =>
+             negb (linked (snd kv1) (snd kv2)) || opt_eqb (vw (fst kv1)) (vw (fst kv2))) (names s)) (names s).
+
+(* the FindEntry function of the model *)
+Definition model_view (s : st) (p : path) : option hentry := w_find s p.
+
+(* where a name is after a successful operation: Some new name / None = the name is gone or
+   was replaced by a new file (it leaves its link group) *)
+Definition img (s : st) (o : op) (n : path) : option path :=
+  match o with
+  | Rename oldp newp =>
+      if path_eqb oldp newp then Some n
+      else match strip_prefix oldp n with
+           | Some r => Some (newp ++ r)
+           | None => match strip_prefix newp n with
+                     | Some r => match nfind s (oldp ++ r) with Some _ => None | None => Some n end
+                     | None => Some n
+                     end
+           end
+  | Delete p _ _ _ | Unlink p => if is_prefix p n then None else Some n
+  | Create p _ _ | Update p _ => if path_eqb p n then None else Some n
+  | Link _ newp _ => if path_eqb newp n then None else Some n
+  | Append _ _ | Write _ _ _ _ => Some n
+  end.
+
+(* names that shared a link id before the operation still share one afterwards, wherever they are now *)
+Definition links_kept (s : st) (o : op) (r : err) (s' : st) : bool :=
+  is_err r ||
+  forallb (fun kv1 => forallb (fun kv2 =>
+             negb (linked (snd kv1) (snd kv2)) ||
+             match img s o (fst kv1), img s o (fst kv2) with
+             | Some m1, Some m2 =>
+                 match nfind s' m1, nfind s' m2 with
+                 | Some e1, Some e2 => linked e1 e2
+                 | _, _ => false
+                 end
+             | _, _ => true
+             end) (names s)) (names s).
+
+(* a successful link makes the two names share an id; a successful write through a name is what the name shows *)
+Definition effect_ok (o : op) (r : err) (s' : st) (vw : path -> option hentry) : bool :=
+  is_err r ||
+  match o with
+  | Link oldp newp _ =>
+      match nfind s' oldp, nfind s' newp with
+      | Some e1, Some e2 => linked e1 e2
+      | _, _ => false
+      end
+  | Write p _ mt _ => match vw p with Some e => h_mtime e =? mt | None => false end
+  | _ => true
+  end.
+
+(* the C21 property for one step: s, o = state and operation; r, s', vw = error class, state, FindEntry afterwards *)
+Definition c21_step_ok (s : st) (o : op) (r : err) (s' : st) (vw : path -> option hentry) : bool :=
+  counters_ok s' && shared_view_ok s' vw && links_kept s o r s' && effect_ok o r s' vw.
+
+(* ---------- trigger predicates of the known findings of C21 ---------- *)
+Definition blob_linked (s : st) (p : path) : bool :=
+  match nfind s p with Some e => negb (h_hl e =? 0) | None => false end.
+
+(* k = 0: a rename moves an entry whose blob carries a link id (or a directory with such a child):
+   moveSelfEntry's copy has no id, the delete of the old name decrements the counter *)
+Definition trig_rename_linked (s : st) (o : op) : bool :=
+  match o with
+  | Rename oldp newp =>
+      blob_linked s oldp ||
+      match nfind s oldp with
+      | Some e => h_dir e && existsb (fun c => negb (h_hl (snd c) =? 0)) (list_children s oldp)
+      | None => false
+      end
+  | _ => false
+  end.
+
+(* k = 1: an entry without link id is written over a name whose blob carries one (plain upload or
+   UpdateEntry, a rename onto the name): handleUpdateToHardLinks returns at once, the counter is not decremented *)
+Definition trig_overwrite_linked (s : st) (o : op) : bool :=
+  match o with
+  | Create p e _ | Update p e => (h_hl e =? 0) && blob_linked s p
+  | Rename oldp newp =>
+      negb (path_eqb oldp newp) &&
+      (blob_linked s newp ||
+       existsb (fun c => blob_linked s (child newp (fst c))) (list_children s oldp))
+  | _ => false
+  end.
+
+(* k = 2: a directory deleted recursively WITHOUT data deletion has a child carrying a link id:
+   DeleteFolderChildren removes the names, maybeDeleteHardLinks is skipped *)
+Definition trig_rec_nodata (ev : env) (s : st) (o : op) : bool :=
+  match o with
+  | Delete p _ _ false =>
+      match find_entry ev s p with
+      | Some e => h_dir e && existsb (fun c => negb (h_dir (snd c)) && negb (h_hl (snd c) =? 0)) (list_children s p)
+      | None => false
+      end
+  | _ => false
+  end.
+
+Definition c21_classify (ev : env) (s : st) (o : op) : option N :=
+  if trig_rename_linked s o then Some 0
+  else if trig_overwrite_linked s o then Some 1
+  else if trig_rec_nodata ev s o then Some 2
+  else None.
+
+(* the first step of the model's run at which the C21 property fails, classified *)
+Fixpoint c21_first_failure (ev : env) (s : st) (ops : list op) : option (option N) :=
+  match ops with
+  | [] => None
+  | o :: ops' =>
+      let r := step ev s o in
+      if c21_step_ok s o (err_of r) (st_of r) (model_view (st_of r))
+      then c21_first_failure ev (st_of r) ops'
+      else Some (c21_classify ev s o)
+  end.
+
+(* ---------- client assumptions of C21 (decidable) ---------- *)
+Definition id_unused (s : st) (id : N) : bool :=
+  negb (id =? 0) &&
+  match kv_get s id with Some _ => false | None => true end &&
+  forallb (fun kv => negb (h_hl (snd kv) =? id)) (names s).
+
+Definition file_at (ev : env) (s : st) (p : path) : bool :=
+  match find_entry ev s p with Some e => negb (h_dir e) | None => true end.
+
+(* requests of clients other than the mount carry no link id; the mount links an existing file to a
+   name that does not exist in an existing directory (the kernel checks that) with an unused id;
+   only files are written through *)
+Definition c21_op_ok (ev : env) (s : st) (o : op) : bool :=
+  match o with
+  | Create _ e _ | Update _ e => h_hl e =? 0
+  | Link oldp newp id =>
+      id_unused s id && file_at ev s oldp &&
+      match nfind s newp with Some _ => false | None => true end && negb (path_eqb oldp newp) &&
+      match find_entry ev s (parent newp) with Some de => h_dir de | None => false end
+  | Append p _ | Write p _ _ _ => file_at ev s p
+  | _ => true
+  end.
+
+Fixpoint c21_hist_ok (ev : env) (s : st) (ops : list op) : bool :=
+  match ops with
+  | [] => true
+  | o :: ops' => c21_op_ok ev s o && c21_hist_ok ev (st_of (step ev s o)) ops'
+  end.
